@@ -62,6 +62,7 @@ pub fn check_text(st: &mut Stats, text: &str, ordering: Option<Vec<(String, usiz
     let convergent = sem.eval(&ast).is_ok();
     let fp_cap = sem.fp_iters * 4 + 64;
     let ord_syms = ordering.as_ref().map(|o| o.iter().map(|(n, id)| NamedSymbol { name: Rc::new(n.clone()), id: *id }).collect::<Vec<_>>());
+    check_lookup_helpers(st, text, ord_syms.clone(), &case);
     let out = if convergent {
         engine_eval(text.as_bytes(), ord_syms, STEP_CAP, fp_cap)
     } else {
@@ -302,6 +303,43 @@ fn rebinding_then_later_occurrence(st: &mut Stats) {
                 check_text(st, &o.replace('%', &list), None, "rebinding-then-later-occurrence");
             }
         }
+    }
+}
+
+/// The public look-up helpers of a parsed formula agree with its two lists: the free index of the
+/// i-th free variable is i, `usize2var(i)` is the i-th variable, `name2var` finds every variable by
+/// its name (and nothing under a name the text does not use).
+fn check_lookup_helpers(st: &mut Stats, text: &str, ord_syms: Option<Vec<NamedSymbol>>, case: &dyn Fn() -> Value) {
+    util::budget(STEP_CAP, 10);
+    let r = util::guarded(|| -> Result<Option<String>, std::io::Error> {
+        let pf = rsbdd::parser::ParsedFormula::new(&mut std::io::BufReader::new(text.as_bytes()), ord_syms)?;
+        for (i, v) in pf.free_vars.iter().enumerate() {
+            let got = pf.to_free_index(v);
+            if got != i {
+                return Ok(Some(format!("to_free_index({}) = {} but it is free variable #{} of {:?}", v.name, got, i, pf.free_vars.iter().map(|x| x.name.as_ref().clone()).collect::<Vec<_>>())));
+            }
+        }
+        for (i, v) in pf.vars.iter().enumerate() {
+            let u = pf.usize2var(i);
+            if u.id != v.id || u.name != v.name {
+                return Ok(Some(format!("usize2var({}) = {} but vars[{}] = {}", i, u.name, i, v.name)));
+            }
+            match pf.name2var(v.name.as_ref()) {
+                Some(f) if f.id == v.id && f.name == v.name => {}
+                other => return Ok(Some(format!("name2var({:?}) = {:?} but the variable is {} (id {})", v.name, other.map(|o| (o.name.as_ref().clone(), o.id)), v.name, v.id))),
+            }
+        }
+        if let Some(f) = pf.name2var("a name the text does not use") {
+            return Ok(Some(format!("name2var of an unused name = {} (id {})", f.name, f.id)));
+        }
+        Ok(None)
+    });
+    st.bump("lookup_helpers_checked");
+    match r {
+        Ok(Ok(None)) | Ok(Err(_)) => {}
+        Ok(Ok(Some(m))) => st.violate("c09.free-vars", "C09:lookup-helpers-disagree".into(), format!("`{}`: {}", text, m), case()),
+        Err(Caught::Budget(_)) => {}
+        Err(c) => st.violate("c09.panic", format!("C09:lookup-{}", c.signature()), format!("`{}`: {:?}", text, c), case()),
     }
 }
 
